@@ -50,6 +50,16 @@ Fixpoint post (isl isd : N -> bool) (depth : nat) (n : node) : bool :=
      | S d => match ch with None => true | Some l => forallb (post isl isd d) l end
      end.
 
+(* arguments that still contain a macro reference, anywhere in the tree *)
+Fixpoint refs_node (n : node) : nat :=
+  let '(Node _ args ch _ _ _) := n in
+  (length (filter (fun a => match macro_matches (S (length a)) a with [] => false | _ => true end) args)
+   + match ch with
+     | None => 0
+     | Some l => (fix go (l : list node) : nat := match l with [] => 0 | x :: t => refs_node x + go t end) l
+     end)%nat.
+Definition refs_in (l : list node) : nat := fold_left (fun a n => (a + refs_node n)%nat) l 0%nat.
+
 Definition monitor (c : case) : list N :=
   (match c_res c with PPanic => [1%N] | _ => [] end) ++
   (match c_res c with
@@ -61,6 +71,12 @@ Definition monitor (c : case) : list N :=
        if forallb expressible t then
          match r with POk t' => if nodes_eqb t t' then [] else [3%N] | _ => [3%N] end
        else []
+   | _, _ => []
+   end) ++
+  (* no macro reference left: the accepted tree has more arguments with a reference pattern than the
+     model's tree for the same input (which replaces every reference, defined or not) *)
+  (match c_res c, model_read c (c_inp c) with
+   | POk t, POk tm => if Nat.ltb (refs_in tm) (refs_in t) then [2%N] else []
    | _, _ => []
    end) ++
   (* the same for a tree the harness built itself: reading its canonical print returns it *)
